@@ -13,6 +13,8 @@ import SqiProofs.GfRefExp
 import SqiProofs.GfRefFp2
 import SqiProofs.GfFp2Batch
 import SqiProofs.Primes
+import SqiProofs.GfX86Refines
+import SqiProofs.GfX86Inv
 
 namespace SqiProps.C07
 open SqiModel.Gf SqiProofs.GfRef SqiProofs.GfMont SqiProofs.GfFp2
@@ -285,5 +287,118 @@ theorem fp2_batched_inv_zero_counterexample :
 example : dom2 (fun a => a < lvl1.p) (⟨3, 4⟩ : Fp2 Nat) ∧
     fp2_mul (Ref.ops lvl1) (fp2_inv (Ref.ops lvl1) ⟨3, 4⟩) ⟨3, 4⟩ = ⟨Ref.fp_set_one lvl1, 0⟩ := by
   refine ⟨⟨by decide +kernel, by decide +kernel⟩, by decide +kernel⟩
+
+/-! ## x86 ("broadwell") back-end, value-level model `SqiModel.GfX86`
+
+Representation domain: partially reduced representatives `a < 2^B` (B = 251 / 383 / 505), `q = c·2^e − 1`,
+`R = 2^(64 n)`. Statements of the form "range preserved ∧ congruent mod q" for every level
+(`IsLvl P : P = x1 ∨ P = x3 ∨ P = x5`); proofs in SqiProofs.GfX86 (core Lean, `omega` on the concrete
+constants). -/
+section x86
+open SqiModel.Gf.X86 SqiProofs.GfX86 SqiProofs.GfX86Refines
+variable (P : X86Params) (hP : IsLvl P)
+include hP
+
+theorem gf_add_spec (a b : Nat) (ha : a < 2 ^ P.B) (hb : b < 2 ^ P.B) :
+    X86.add P a b < 2 ^ P.B ∧ X86.add P a b % P.q = (a + b) % P.q := add_spec P hP a b ha hb
+theorem gf_sub_spec (a b : Nat) (ha : a < 2 ^ P.B) (hb : b < 2 ^ P.B) :
+    X86.sub P a b < 2 ^ P.B ∧ (X86.sub P a b + b) % P.q = a % P.q := sub_spec P hP a b ha hb
+theorem gf_neg_spec (a : Nat) (ha : a < 2 ^ P.B) :
+    X86.neg P a < 2 ^ P.B ∧ (X86.neg P a + a) % P.q = 0 := neg_spec P hP a ha
+theorem gf_half_spec (a : Nat) (ha : a < 2 ^ P.B) :
+    X86.half P a < 2 ^ P.B ∧ (2 * X86.half P a) % P.q = a % P.q := half_spec P hP a ha
+theorem gf_partial_reduce_spec (a : Nat) (ha : a < P.R) :
+    X86.partial_reduce P a < 2 ^ P.B ∧ X86.partial_reduce P a % P.q = a % P.q := partial_reduce_spec P hP a ha
+theorem gf_set_small_spec (x : Nat) :
+    X86.set_small P x < 2 ^ P.B ∧ X86.set_small P x % P.q = (x % 2 ^ 32 * P.R) % P.q := set_small_spec P hP x
+/-- Montgomery reduction with the `h = q ↦ 0` normalisation: canonical output -/
+theorem gf_montgomery_reduce_spec (x : Nat) (hx : x < P.R) :
+    X86.montgomery_reduce P x < P.q ∧ (X86.montgomery_reduce P x * P.R) % P.q = x % P.q :=
+  montgomery_reduce_spec P hP x hx
+theorem gf_mul_spec (a b : Nat) (ha : a < 2 ^ P.B) (hb : b < 2 ^ P.B) :
+    X86.mul P a b < 2 ^ P.B ∧ (X86.mul P a b * P.R) % P.q = (a * b) % P.q := mul_spec P hP a b ha hb
+/-- `iszero` accepts exactly the two representatives 0 and q of zero -/
+theorem gf_iszero_spec (a : Nat) (ha : a < 2 ^ P.B) :
+    (X86.iszero P a = T32 ↔ a % P.q = 0) ∧ (X86.iszero P a = T32 ∨ X86.iszero P a = 0) := iszero_spec P hP a ha
+theorem gf_equals_spec (a b : Nat) (ha : a < 2 ^ P.B) (hb : b < 2 ^ P.B) :
+    (X86.equals P a b = T32 ↔ a % P.q = b % P.q) ∧ (X86.equals P a b = T32 ∨ X86.equals P a b = 0) :=
+  equals_spec P hP a b ha hb
+theorem gf_normalize_spec (a : Nat) (ha : a < 2 ^ P.B) :
+    X86.normalize P a < P.q ∧ X86.normalize P a % P.q = a % P.q := normalize_spec P hP a ha
+/-- canonical encoding: the integer `a·R⁻¹ mod q` -/
+theorem gf_encode_spec (a : Nat) (ha : a < P.R) :
+    X86.encode P a < P.q ∧ (X86.encode P a * P.R) % P.q = a % P.q := encode_spec P hP a ha
+/-- decode: canonical strings are accepted, every other `8n`-byte string is rejected (0, flag 0) -/
+theorem gf_decode_spec (v : Nat) (hv : v < P.R) :
+    (v < P.q → (X86.decode P v).2 = T32 ∧ (X86.decode P v).1 < 2 ^ P.B ∧ (X86.decode P v).1 % P.q = (v * P.R) % P.q) ∧
+    (P.q ≤ v → (X86.decode P v).2 = 0 ∧ (X86.decode P v).1 < 2 ^ P.B ∧ (X86.decode P v).1 % P.q = 0) :=
+  decode_spec P hP v hv
+/-- encode(decode(b)) = b for canonical b -/
+theorem gf_encode_decode (v : Nat) (hv : v < P.q) : X86.encode P (X86.decode P v).1 = v := by
+  have hqR : P.q < P.R := by rcases hP with rfl | rfl | rfl <;> decide +kernel
+  have hBR : 2 ^ P.B < P.R := by rcases hP with rfl | rfl | rfl <;> decide +kernel
+  obtain ⟨_, d1, d2⟩ := (decode_spec P hP v (lt_trans hv hqR)).1 hv
+  obtain ⟨e1, e2⟩ := encode_spec P hP _ (lt_trans d1 hBR)
+  have := R_cancel P hP (X86.encode P (X86.decode P v).1) v (by rw [e2, d2])
+  rwa [Nat.mod_eq_of_lt e1, Nat.mod_eq_of_lt hv] at this
+theorem gf_select_spec (a0 a1 : Nat) (h0 : a0 < 2 ^ P.B) (h1 : a1 < 2 ^ P.B) :
+    X86.select P a0 a1 0 = a0 ∧ X86.select P a0 a1 T32 = a1 := by
+  have hBR : 2 ^ P.B < P.R := by rcases hP with rfl | rfl | rfl <;> decide +kernel
+  exact ⟨select_zero P a0 a1, select_T32 P hP a0 a1 (lt_trans h0 hBR) (lt_trans h1 hBR)⟩
+theorem gf_cswap_spec (a b : Nat) (h0 : a < 2 ^ P.B) (h1 : b < 2 ^ P.B) :
+    X86.cswap P a b 0 = (a, b) ∧ X86.cswap P a b T32 = (b, a) := by
+  have hBR : 2 ^ P.B < P.R := by rcases hP with rfl | rfl | rfl <;> decide +kernel
+  exact ⟨cswap_zero P a b, cswap_T32 P hP a b (lt_trans h0 hBR) (lt_trans h1 hBR)⟩
+
+/- FULL STATEMENT (property): `square a < 2^B ∧ square a · R ≡ a² (mod q)` for every level.
+   TRUE at level 1 (`gf_square_spec_lvl1`), FALSE at levels 3 and 5 on the pinned tree: the carry chains of
+   the cross-product rows of gf65376_square / gf27500_square stop below the top limb
+   (`gf_square_counterexample_lvl3/5`, replayed on the real code; repair in notes/patches). -/
+omit hP in
+theorem gf_square_spec_lvl1 (a : Nat) (ha : a < 2 ^ x1.B) :
+    X86.square x1 a < 2 ^ x1.B ∧ (X86.square x1 a * x1.R) % x1.q = (a * a) % x1.q := square_spec_x1 a ha
+omit hP in
+theorem gf_square_counterexample : ¬ SquareOK x3 ∧ ¬ SquareOK x5 := ⟨not_squareOK_x3, not_squareOK_x5⟩
+
+/-- square root: range, even canonical value, and the returned flag is exactly "result² ≡ a"
+    (relative to `SquareOK`, i.e. level 1 on the pinned tree) -/
+theorem gf_sqrt_spec (hsq : SquareOK P) (a : Nat) (ha : a < 2 ^ P.B) :
+    (X86.sqrt P a).1 < 2 ^ P.B ∧ X86.encode P (X86.sqrt P a).1 % 2 = 0 ∧
+    ((X86.sqrt P a).2 = T32 ↔ X86.square P (X86.sqrt P a).1 % P.q = a % P.q) ∧
+    ((X86.sqrt P a).2 = T32 ∨ (X86.sqrt P a).2 = 0) := sqrt_spec P hP hsq a ha
+
+/-- Pornin binary GCD (inversion / division): one outer iteration of the model's `divOuterStep` preserves
+    the invariant `a·x·2^k ≡ y·u ∧ b·x·2^k ≡ y·v (mod q)` (with k ↦ k+31) for any update coefficients
+    that satisfy `CoeffsOK` (bounded by 2^31, combinations divisible by 2^31).  PARTIAL: that the inner
+    loop produces such coefficients and that gcd is reached within the fixed iteration counts is cited
+    (Pornin, eprint 2020/972), so there is no end-to-end theorem for `invert` / `legendre`; both are tied
+    to the C code by execution on every run. -/
+theorem gf_div_outer_invariant_partial (st : DivSt) (k : Nat) (x y : Int)
+    (ha : st.a < 2 ^ (64 * P.n - 1)) (hb : st.b < 2 ^ (64 * P.n - 1))
+    (hu : st.u < 2 ^ P.B) (hv : st.v < 2 ^ P.B)
+    (hc : SqiProofs.GfX86.CoeffsOK st (SqiProofs.GfX86.outerCoeffs P st))
+    (h1 : (P.q : Int) ∣ (st.a : Int) * x * 2 ^ k - y * st.u)
+    (h2 : (P.q : Int) ∣ (st.b : Int) * x * 2 ^ k - y * st.v) :
+    (divOuterStep P st).u < 2 ^ P.B ∧ (divOuterStep P st).v < 2 ^ P.B ∧
+    (P.q : Int) ∣ ((divOuterStep P st).a : Int) * x * 2 ^ (k + 31) - y * (divOuterStep P st).u ∧
+    (P.q : Int) ∣ ((divOuterStep P st).b : Int) * x * 2 ^ (k + 31) - y * (divOuterStep P st).v :=
+  SqiProofs.GfX86.divOuterStep_invariant P hP st k x y ha hb hu hv hc h1 h2
+
+/-- the x86 model satisfies the GF(p²)/C06 interface `FpRefines`; arithmetic fields proved, the fields
+    resting on the binary GCD / sqrt exponent chain / `SquareOK` are the explicit hypothesis `X86Cited` -/
+theorem x86_backend_refines [Fact P.q.Prime] (hc : X86Cited P) :
+    FpRefines (X86.ops P) P.q (fun a => a < 2 ^ P.B) (xval P) := x86_refines hP hc
+
+end x86
+
+/-- the x86 moduli are the ref moduli (hence prime) -/
+theorem x86_q : x1.q = lvl1.p ∧ x3.q = lvl3.p ∧ x5.q = lvl5.p := by decide +kernel
+instance : Fact x1.q.Prime := ⟨by rw [x86_q.1]; exact Fact.out⟩
+instance : Fact x3.q.Prime := ⟨by rw [x86_q.2.1]; exact Fact.out⟩
+instance : Fact x5.q.Prime := ⟨by rw [x86_q.2.2]; exact Fact.out⟩
+
+/-- non-vacuity of the x86 hypotheses -/
+example : SqiProofs.GfX86.IsLvl x1 ∧ (12345 : Nat) < 2 ^ x1.B ∧ SqiProofs.GfX86.SquareOK x1 :=
+  ⟨Or.inl rfl, by decide, SqiProofs.GfX86.squareOK_x1⟩
 
 end SqiProps.C07
